@@ -107,6 +107,12 @@ class World:
                 l = links[rng.choice(self.link_ids)]
                 line = list(h3.h3_line(l.start, l.end))
                 cells.add(rng.choice([line[0], line[-1], rng.choice(line)]))
+            # a few locations beside the streets: the network snaps them to a link (entities built from
+            # them stand on the snapped cell, whatever the raw cell was)
+            for c in list(cells)[:4]:
+                near = sorted(h3.k_ring(c, rng.choice([1, 2, 4])) - cells)
+                if near:
+                    cells.add(rng.choice(near))
             self.cells = sorted(cells)
         self.capture = Capture()
         reporter = Reporter()
